@@ -10,7 +10,7 @@ var props = map[string]propConf{
 	"C05": {Level: "fault_enumeration", Quick: 5000, Thorough: 10000000, ThoroughS: 1500},
 	"C06": {Level: "fault_enumeration", Quick: 2000, Thorough: 500000, ThoroughS: 1500},
 	"C07": {Level: "exploration", Quick: 10000, Thorough: 12000000, ThoroughS: 1200},
-	"C08": {Level: "exploration", Quick: 4000, Thorough: 8000000, ThoroughS: 1500},
+	"C08": {Level: "exploration", Quick: 12000, Thorough: 8000000, ThoroughS: 1500},
 	"C09": {Level: "exploration", Quick: 3000, Thorough: 4000000, ThoroughS: 1500},
 	"C10": {Level: "exploration", Quick: 3000, Thorough: 2000000, ThoroughS: 1500},
 	"C11": {Level: "exploration", Quick: 300, Thorough: 800000, ThoroughS: 1800, Race: true, Chunk: 50},
